@@ -13,6 +13,11 @@ change what is printed (every string type prints like `&str`, every attribute va
 `escape_attr` of its Display text), so the decoder maps them onto `VNode` / `Attr`:
 `Some`, `Either::Left/Right` → the item; `None`, `()` → `unit`; `Vec` → `vec`; tuple, array,
 `StaticVec`, `Fragment` → `seq`; attribute/style `None` → nothing; `class(None)` → an empty class item.
+  doc <item>*                  -- the whole first chunk through `inject_meta_context`; items:
+       `T`hex (Title text) `F`hex,hex (Title formatter = prefix,suffix) `m`… (Meta) `l`k=hex,… (Link)
+       `y`k=hex,…`|`child (Style) `j`k=hex,…`|`child (Script; child = `-` or `c`hex) `k`hex,(`-`|`i`hex)
+       (Stylesheet href,id) `H`attrs`>` / `B`attrs`>` (attributes on <Html/> / <Body/>, node attr grammar)
+  view nodes additionally: `I`hex;hex;nodes`<` (Island component, props) and `J`nodes`<` (IslandChildren)
 `<title>` is `-` (no title) or `t` hex; `<meta>` is `m` kind ',' hex ',' hex with kind
 n (name,content) p (property,content) c (charset) h (http-equiv,content) i (itemprop,content).
 
@@ -143,6 +148,15 @@ partial def parseNodes (top : Bool) (cs : List Char) (acc : List VNode) : Option
     let (s, r) ← hexField r
     parseNodes top r (.prim s :: acc)
   | 'Z' :: r => parseNodes top r (.unit :: acc)
+  | 'I' :: r => do
+    -- Island::new(component, view).with_props(props)
+    let (c, r) ← hexField r
+    let (p, r) ← hexField r
+    let (kids, r) ← parseNodes false r []
+    parseNodes top r (.island c p kids :: acc)
+  | 'J' :: r => do
+    let (kids, r) ← parseNodes false r []
+    parseNodes top r (.islandChildren kids :: acc)
   | 'E' :: r => do
     let (tag, r) ← untilSemi r
     if tag.isEmpty || !tag.all tagCharOK then none
@@ -197,6 +211,101 @@ def decodeTitle (w : String) : Option (Option Str) :=
 
 def anyStr (p : Char → Bool) (ss : List Str) : Bool := ss.any (fun s => s.any p)
 
+/-! ### `doc` items: the leptos_meta components -/
+
+def linkKeys : List String :=
+  ["id", "as", "crossorigin", "fetchpriority", "href", "hreflang", "imagesizes", "imagesrcset", "integrity",
+   "media", "referrerpolicy", "rel", "sizes", "title", "type", "blocking"]
+def scriptKeys : List String :=
+  ["id", "async", "crossorigin", "defer", "fetchpriority", "integrity", "nomodule", "nonce", "referrerpolicy",
+   "src", "type", "blocking"]
+def styleKeys : List String := ["id", "media", "nonce", "title", "blocking"]
+
+/-- `k=hex,k=hex,…` with the keys in the component's own (fixed) attribute order -/
+def decodeKvs (keys : List String) (w : String) : Option (List Attr) :=
+  if w == "" then some [] else
+  let rec go (items : List String) (from_ : Nat) : Option (List Attr) :=
+    match items with
+    | [] => some []
+    | it :: rest =>
+      match it.splitOn "=" with
+      | [k, h] =>
+        match keys.idxOf? k with
+        | some i =>
+          if i < from_ then none else do
+            let v ← strOfHexChars h.toList
+            let r ← go rest (i + 1)
+            pure (.plain k.toList v :: r)
+        | none => none
+      | _ => none
+  go (w.splitOn ",") 0
+
+def decodeChild (w : String) : Option (List Node) :=
+  if w == "-" then some [] else
+  match w.toList with
+  | 'c' :: h => (strOfHexChars h).map fun s => [.text s]
+  | _ => none
+
+inductive DocItem where
+  | text (s : Str)
+  | fmt (pre post : Str)
+  | tag (n : Node)
+  | html (attrs : List Attr)
+  | body (attrs : List Attr)
+
+def decodeAttrsWord (cs : List Char) : Option (List Attr) :=
+  match parseAttrs cs [] with
+  | some (as, []) => some as
+  | _ => none
+
+def decodeDocItem (w : String) : Option DocItem :=
+  match w.toList with
+  | 'T' :: h => (strOfHexChars h).map .text
+  | 'F' :: rest =>
+    match (String.ofList rest).splitOn "," with
+    | [a, b] => do
+      let a ← strOfHexChars a.toList
+      let b ← strOfHexChars b.toList
+      pure (.fmt a b)
+    | _ => none
+  | 'm' :: _ => (decodeMeta w).map .tag
+  | 'l' :: rest => (decodeKvs linkKeys (String.ofList rest)).map fun as => .tag (.elem (S "link") as [])
+  | 'y' :: rest =>
+    match (String.ofList rest).splitOn "|" with
+    | [kv, ch] => do
+      let as ← decodeKvs styleKeys kv
+      let kids ← decodeChild ch
+      pure (.tag (.elem tStyle as kids))
+    | _ => none
+  | 'j' :: rest =>
+    match (String.ofList rest).splitOn "|" with
+    | [kv, ch] => do
+      let as ← decodeKvs scriptKeys kv
+      let kids ← decodeChild ch
+      pure (.tag (.elem tScript as kids))
+    | _ => none
+  | 'k' :: rest =>
+    -- Stylesheet: link().id(id).rel("stylesheet").href(href)
+    match (String.ofList rest).splitOn "," with
+    | [h, i] => do
+      let href ← strOfHexChars h.toList
+      let idAttr ← (if i == "-" then some [] else
+        match i.toList with
+        | 'i' :: ih => (strOfHexChars ih).map fun v => [Attr.plain (S "id") v]
+        | _ => none)
+      pure (.tag (.elem (S "link") (idAttr ++ [.plain (S "rel") (S "stylesheet"), .plain (S "href") href]) []))
+    | _ => none
+  | 'H' :: rest => (decodeAttrsWord rest).map .html
+  | 'B' :: rest => (decodeAttrsWord rest).map .body
+  | _ => none
+
+def docClass (htmlAttrs bodyAttrs : List Attr) (title : Option Str) (metas : List Node) : String :=
+  let ss := kidsStrings metas ++ title.toList ++ (htmlAttrs ++ bodyAttrs).flatMap attrStrings
+  if !rawTextFreeKids metas then "raw-text-child"
+  else if anyStr (· = cNul) ss then "nul-char"
+  else if anyStr (· = cCr) ss then "cr-char"
+  else "unexpected"
+
 /-- known-finding class of a failing view -/
 def viewClass (v : List VNode) : String :=
   let ss := vKidsStrings v
@@ -231,6 +340,34 @@ def step (_ : Unit) (line : String) : Unit × String :=
           if parse html = some (headStructure title metas) then "ok" else s!"fail {headClass title metas}"
         s!"{hexOfStr html} ## {verdict}"
       | _, _ => "bad-op"
+    | "doc" :: items =>
+      match items.mapM decodeDocItem with
+      | some its =>
+        let texts := its.filterMap fun | .text s => some s | _ => none
+        let fmts := its.filterMap fun | .fmt a b => some (a, b) | _ => none
+        let metas := its.filterMap fun | .tag n => some n | _ => none
+        let ha := its.flatMap fun | .html a => a | _ => []
+        let ba := its.flatMap fun | .body a => a | _ => []
+        -- each `<Html/>` / `<Body/>` sends its own attribute string
+        let hs := its.flatMap fun | .html a => attrsHtml a | _ => []
+        let bs := its.flatMap fun | .body a => attrsHtml a | _ => []
+        let nH := (its.filter fun | .html _ => true | _ => false).length
+        let nB := (its.filter fun | .body _ => true | _ => false).length
+        if nH > 1 || nB > 1 then "bad-op" else
+        let title := titleAsString texts fmts
+        -- what is meant: every piece at its own place
+        let intended := sShellOpen ++ hs ++ sShellHead ++ headHtml title metas ++ sShellBody ++ bs ++ sShellEnd
+        -- what the code builds (string searches for `<html` / `<body`)
+        let html := docHtmlImpl bodyAttrsAfterHead hs title metas bs
+        let ok :=
+          parse (attrsProbe ha) = some [.elem tProbe (expectedAttrs ha) []] &&
+          parse (headHtml title metas) = some (headStructure title metas) &&
+          parse (attrsProbe ba) = some [.elem tProbe (expectedAttrs ba) []]
+        let verdict :=
+          if html != intended then "fail body-attrs-misplaced"
+          else if ok then "ok" else s!"fail {docClass ha ba title metas}"
+        s!"{hexOfStr html} ## {verdict}"
+      | none => "bad-op"
     | _ => "bad-op"
   ((), out)
 
